@@ -13,6 +13,14 @@
 //!        reply: ok A <kind:setting:excl:start:end,...|-> F <chain flags>
 //!   morx shape <fonthex> R <recipe...> I <dir> <level> <feats|-> <text: hexcp:cluster,...>
 //!        public shape(); reply: ok <g:c,...>
+//!   morx purge <level> <glyphs>
+//!        hb_aat_layout_remove_deleted_glyphs on a hand-made buffer; reply: ok <glyphs>
+//!   morx shapeenv <fonthex> R <recipe...> I <env> <dir> <level> <feats|-> <text: hexcp:cluster,...>
+//!        public shape() on a font that carries the morx table of the recipe next to other layout tables.
+//!        env (for the model only, rbshim reads the font): gsub,gpos,gposkern,kerx,kern,gdef as 0/1 digits + the
+//!        GSUB single substitution as gid>gid pairs.
+//!        reply: ok <g:c,...> P <apply_morx><apply_gpos><apply_kerx><apply_kern> A <x_advance,...|->
+//!        (P from the plan hook; A is for the search oracle only, the model has no positions: the check cuts it off)
 use super::util::hex_bytes;
 use rustybuzz::ttf_parser::Tag;
 use rustybuzz::verif::{aat_map as am, morx as mx};
@@ -171,6 +179,64 @@ pub fn handle(toks: &[&str], _st: &mut crate::State) -> Option<String> {
                     .join(",")
             };
             Some(format!("ok A {} F {}", a, fmt_flags(&am::compile(&face, &fs))))
+        }
+        "purge" => {
+            let level: u32 = toks.get(1)?.parse().ok()?;
+            let gs = glyphs(toks.get(2)?)?;
+            Some(format!("ok {}", fmt_glyphs(&mx::purge(level, &gs))))
+        }
+        "shapeenv" => {
+            let data = hex_bytes(toks.get(1)?)?;
+            let i = input_at(toks)?;
+            let t = &toks[i + 2..];
+            let d = dir(t.first()?)?;
+            let level: u8 = t.get(1)?.parse().ok()?;
+            let fs = feats(t.get(2)?)?;
+            let face = match Face::from_slice(&data, 0) {
+                Some(f) => f,
+                None => return Some("reject".into()),
+            };
+            let mut buf = rustybuzz::UnicodeBuffer::new();
+            if *t.get(3)? != "-" {
+                for x in t.get(3)?.split(',') {
+                    let (c, cl) = x.split_once(':')?;
+                    buf.add(
+                        char::from_u32(u32::from_str_radix(c, 16).ok()?)?,
+                        cl.parse().ok()?,
+                    );
+                }
+            }
+            buf.set_direction(d);
+            buf.set_cluster_level(match level {
+                0 => rustybuzz::BufferClusterLevel::MonotoneGraphemes,
+                1 => rustybuzz::BufferClusterLevel::MonotoneCharacters,
+                _ => rustybuzz::BufferClusterLevel::Characters,
+            });
+            let p = mx::plan_appliers(&face, d, &fs);
+            let gb = rustybuzz::shape(&face, &fs, buf);
+            let v: Vec<(u32, u32)> = gb
+                .glyph_infos()
+                .iter()
+                .map(|i| (i.glyph_id, i.cluster))
+                .collect();
+            let adv: Vec<String> = gb
+                .glyph_positions()
+                .iter()
+                .map(|p| p.x_advance.to_string())
+                .collect();
+            Some(format!(
+                "ok {} P {}{}{}{} A {}",
+                fmt_glyphs(&v),
+                p[0] as u8,
+                p[1] as u8,
+                p[2] as u8,
+                p[3] as u8,
+                if adv.is_empty() {
+                    "-".to_string()
+                } else {
+                    adv.join(",")
+                }
+            ))
         }
         "shape" => {
             let data = hex_bytes(toks.get(1)?)?;
